@@ -48,7 +48,7 @@ func init() {
 				sc := cur
 				v := variant
 				sc.Variant = &v
-				var fresh bool
+				var fresh, sub bool
 				r := safely(line, func() Result {
 					c, err := concretise(sc, variant)
 					if err != nil {
@@ -66,6 +66,22 @@ func init() {
 					}
 					got := ch.Check(state, c.Event) == nil
 					fresh, _ = runAllowed(c)
+					// a fresh Allowed over exactly the state StateNeededForAuth names for the event
+					needed := map[gmsl.StateKeyTuple]bool{}
+					for _, t := range gmsl.StateNeededForAuth([]gmsl.PDU{c.Event}).Tuples() {
+						needed[t] = true
+					}
+					var only []gmsl.PDU
+					for _, p := range c.All {
+						if needed[gmsl.StateKeyTuple{EventType: p.Type(), StateKey: *p.StateKey()}] {
+							only = append(only, p)
+						}
+					}
+					prov, err := gmsl.NewAuthEvents(only)
+					if err != nil {
+						panic(err)
+					}
+					sub = gmsl.Allowed(c.Event, prov, identityQuerier) == nil
 					return Result{OK: true, Got: got}
 				})
 				if !r.OK {
@@ -76,7 +92,7 @@ func init() {
 					// the checker may be left half-updated by the panic: the session ends here
 					break
 				}
-				tw.emit(map[string]interface{}{"ver": sc.Ver, "st": sc.St, "ev": sc.Ev, "got": r.Got, "fresh": fresh,
+				tw.emit(map[string]interface{}{"ver": sc.Ver, "st": sc.St, "ev": sc.Ev, "got": r.Got, "fresh": fresh, "sub": sub,
 					"variant": variant, "session": session, "step": step, "key": scenarioKey(sc)})
 				line++
 			}
